@@ -107,9 +107,11 @@ def c14_2(R):
             plocal = pt.root[1]
             ds = [d for d in pt.root[3] if isinstance(d, Stmt)]
             st = ds[0] if len(ds) == 1 else None
-        if st is not None and st.rv.kind == "bin" and st.rv.op == "Gt":
-            a = trace(sp, st.rv.ops[0])
-            c = value_sources(sp, st.rv.ops[1])
+        o = rv_ordering(st.rv) if st is not None else None
+        if o is not None and o[2]:
+            # mss() < payload_size
+            a = trace(sp, o[1])
+            c = value_sources(sp, o[0])
             if trace(sp, e.args[1]).describe() == a.describe() and ("call", "mtu::SegmentSizes::mss") in c:
                 okp = True
     if okp:
@@ -176,12 +178,14 @@ def c14_2(R):
             okx = False
             both = 0
             for c, truth, d, *_ in controlling(px, s.bb):
-                if c.kind == "bin" and c.op == "Ge" and truth:
-                    a = trace(px, c.a)
-                    bsrc = value_sources(px, c.b)
-                    if a.kind == "call" and call_matches(a.root[1], ("Segment::retransmit_count",)) and ("param", "max_probe_retransmissions") in bsrc:
+                for r_, x_, y_ in implied(c, truth):
+                    if r_ != "le":
+                        continue
+                    a = trace(px, y_)
+                    bsrc = value_sources(px, x_)
+                    if a.kind == "call" and call_matches(a.root[1], ("Segment::retransmit_count",)) and ("param", 3) in bsrc:  # pop_expired_mtu_probe(self, retransmit_timed_out, max_probe_retransmissions)
                         okx = True
-                if d.endswith("=true") and ("tuple." in d or "retransmit_timed_out" in d or "Segment.is_mtu_probe" in d):
+                if d.endswith("=true") and ("tuple." in d or "param#2" in d or "Segment.is_mtu_probe" in d):
                     both += 1
             if okx and both >= 2:
                 R.ok("expiry-condition", px.name, "(timed_out, is_probe) = (true, true) && retransmit_count >= max_probe_retransmissions")
@@ -283,7 +287,7 @@ def c14_3(R):
                 if inner.kind == "call" and call_matches(inner.root[1], ("Ord::min",)) and floor_.last_field == "SegmentSizes.min_ss":
                     a0 = trace(b, inner.root[1].args[0])
                     a1 = trace(b, inner.root[1].args[1])
-                    if a0.last_field == "SegmentSizes.max_ss" and a1.kind == "call" and call_matches(a1.root[1], ("saturating_sub",)) and a1.root[1].args[1].scalar == 1 and ("param", "size") in value_sources(b, a1.root[1].args[0]):
+                    if a0.last_field == "SegmentSizes.max_ss" and a1.kind == "call" and call_matches(a1.root[1], ("saturating_sub",)) and a1.root[1].args[1].scalar == 1 and ("param", 2) in value_sources(b, a1.root[1].args[0]):  # on_probe_failed(self, size)
                         shape_ok = True
             if shape_ok:
                 R.ok("on_probe_failed-shape", b.name, "max_ss = min(max_ss, size - 1).max(min_ss)")
